@@ -1,4 +1,5 @@
 import ZCV.Lemmas.Resources
+import ZCV.Lemmas.Resources2Marks
 /-!
 # C19 — every resource opened during a load is closed, however the load ends
 The model (`ZCV/Model/Resources.lean`) is the `with openResource(url) as r:` discipline of loader.py / schema.py over an
@@ -21,5 +22,285 @@ theorem C19_open_close_count (f : Pt → Bool) (r : Nat) (steps : List Step) :
 /-- non-vacuity of the fault-free case: without faults the load completes -/
 theorem C19_no_fault_ok (r : Nat) (steps : List Step) : (runRes (fun _ => false) r steps).2 = true :=
   run_no_fault_ok r steps
+
+/-!
+## Second model: resource graphs, schema loads, the loaders' state (`ZCV/Model/Resources2.lean`)
+
+`Res2.run (faults : List Pt) (sc : Scenario) (st : LState) : Out` — `sc` = table of documents (configuration resources with
+`%include` / `%import` lines; schema documents with an `extends` list, `<import src>`, `<import package>`; components), the
+public call made and the recursion limit; `st` = `_active_urls`, the schema's components, the schema cache before the call;
+the result = events (with parse steps), returned / raised, the state afterwards.
+-/
+section second
+open ZCV.Res2
+
+/-- For every table of resources (include cycles, schemas extending or importing themselves, several bases, diamonds, repeated
+    imports, missing or ill-typed members), every entry point (`loadURL` / `loadFile` of a configuration or of a schema), every set
+    of failing operations (any `urlopen`, `read`, `decode`, any step of any parser, `sm.finish()`), every recursion limit and every
+    prior state of the loader: when the call returns or raises, the `Resource` objects were closed in reverse order of opening and
+    none is open; each URL stream was closed by the event right after its opening; and a parser step of a resource happened only
+    while that resource was the innermost open one. -/
+theorem C19_all_closed2 (faults : List Pt) (sc : Scenario) (st : LState) : Res2.wb (run faults sc st).evs [] = true :=
+  run_wb faults sc st
+
+/-- the same about the events the harness records on the real objects (parse steps dropped), with the checker of the first model -/
+theorem C19_all_closed2_io (faults : List Pt) (sc : Scenario) (st : LState) :
+    Res.wb (ioTrace (run faults sc st).evs) [] = true :=
+  ioTrace_wb _ _ (run_wb faults sc st)
+
+/-- "the underlying URL stream is closed as soon as its content has been read": whenever any parser starts a step (step `k` of
+    resource `r`), every URL stream opened so far — that of `r` (`r' = r`) and any other — has been closed: up to that point it
+    was opened exactly as often as closed.  In particular the stream of `r` is closed before the first parse step of `r`. -/
+theorem C19_stream_closed_before_parse (faults : List Pt) (sc : Scenario) (st : LState)
+    (pre post : List Res2.Ev) (r k r' : Nat) (h : (run faults sc st).evs = pre ++ .parse r k :: post) :
+    pre.count (.sopen r') = pre.count (.sclose r') :=
+  wb_streams_closed_at_parse r k post r' pre [] (h ▸ run_wb faults sc st)
+
+/-- … and nothing at all happens between the opening of a URL stream and its closing: the next event is `sclose` (on success
+    of `read()` and on its failure — the `try/finally` of `openResource`) -/
+theorem C19_stream_closed_at_once (faults : List Pt) (sc : Scenario) (st : LState)
+    (pre post : List Res2.Ev) (r : Nat) (h : (run faults sc st).evs = pre ++ .sopen r :: post) :
+    ∃ post', post = .sclose r :: post' :=
+  wb_stream_closed_next r post pre [] (h ▸ run_wb faults sc st)
+
+/-- `_active_urls` after the call is what it was before the call, however the call ended (returned, refused an include cycle,
+    failed at any point in any resource, ran out of stack): the `finally` of `_parse_resource` pops what was pushed, and the
+    cycle check raises before anything is pushed. -/
+theorem C19_active_restored (faults : List Pt) (sc : Scenario) (st : LState) : (run faults sc st).st.active = st.active :=
+  (runRes_keeps _ sc.docs sc.limit _ _ st).active
+
+/-- However the call ended, the only things left in the loader are additions at the end of the component list and of the schema
+    cache (`List.IsPrefix`); `_active_urls` is as before. -/
+theorem C19_state_only_grows (faults : List Pt) (sc : Scenario) (st : LState) :
+    (run faults sc st).st.active = st.active ∧ st.comps <+: (run faults sc st).st.comps ∧ st.cache <+: (run faults sc st).st.cache :=
+  let h := runRes_keeps _ sc.docs sc.limit _ _ st
+  ⟨h.active, h.comps, h.cache⟩
+
+/-- a schema load (`SchemaLoader.loadURL` / `loadFile`) never touches the component list it was started with: components go to
+    the schema object being built -/
+theorem C19_schema_load_keeps_comps (faults : List Pt) (docs : List (Nat × Doc)) (limit : Nat) (file : Bool) (r : Nat) (st : LState) :
+    (run faults { docs := docs, entry := if file then .schemaFile r else .schemaURL r, limit := limit } st).st.comps = st.comps := by
+  cases file <;> exact runRes_load_comps _ docs limit _ r st
+
+/-- "A failed load leaves nothing behind", PARTIAL: for a configuration load in which no `%import` line names a component the
+    loader's schema does not have yet (in particular: no `%import` at all), the loader's whole state after the call — returned
+    or raised, any fault set — is the state before the call.
+    MISSING for the full statement `(run faults sc st).st = st`: loads that `%import` a new component (on success the component
+    is legitimately recorded; for failures see `C19_failed_load_restores_partial` and its counterexample) and schema loads (the
+    cache of the `SchemaLoader` grows, also when the load fails after a nested `<import src>` returned). -/
+theorem C19_state_restored_partial (faults : List Pt) (sc : Scenario) (st : LState)
+    (hentry : sc.entry.mode = .top false ∨ sc.entry.mode = .top true) (himp : ImportsKnown sc.docs st.comps) :
+    (run faults sc st).st = st := by
+  unfold run
+  rcases hentry with h | h <;> rw [h] <;> exact runRes_top_fix _ sc.docs st.comps himp sc.limit _ _ st rfl
+
+/-- … hence a later load by the same loader object behaves exactly as it would have without the earlier call (same events, same
+    outcome, same state), whatever the later load is -/
+theorem C19_later_load_unaffected_partial (faults : List Pt) (sc : Scenario) (st : LState)
+    (hentry : sc.entry.mode = .top false ∨ sc.entry.mode = .top true) (himp : ImportsKnown sc.docs st.comps)
+    (faults2 : List Pt) (sc2 : Scenario) :
+    run faults2 sc2 (run faults sc st).st = run faults2 sc2 st := by
+  rw [C19_state_restored_partial faults sc st hentry himp]
+
+/-- the hypotheses of the two theorems above hold for a non-trivial load: an include cycle -/
+example : let sc : Scenario := { docs := [(0, .cfg [.work, .incl 1, .work]), (1, .cfg [.work, .incl 0])], entry := .cfgURL 0 }
+    (sc.entry.mode = .top false ∨ sc.entry.mode = .top true) ∧ ImportsKnown sc.docs [] ∧ (run [] sc {}).ok = false := by
+  refine ⟨Or.inl rfl, ?_, by decide⟩
+  intro r lines c h hc
+  have hm := mem_of_lookup h
+  simp only [List.mem_cons, Prod.mk.injEq, Doc.cfg.injEq, List.mem_nil_iff, or_false] at hm
+  rcases hm with ⟨_, rfl⟩ | ⟨_, rfl⟩ <;> simp at hc
+
+/-- configuration 0 = `%import pkg` (component 7) then a key; the component's second element is malformed -/
+def importScenario : Scenario := { docs := [(0, .cfg [.imp 7, .work]), (7, .comp [.work, .work])], entry := .cfgURL 0 }
+
+/-- The repaired `importSchemaComponent` (commit 7f61532): a `%import` line that fails — the component cannot be opened, any of
+    its elements is bad, a nested `<import>` fails at any depth, the stack overflows — leaves the component marks exactly as
+    they were before that line (its own mark and the marks made by nested `<import package>`), whatever the nested calls do. -/
+theorem C19_failed_import_restores (rec : Rec) (c : Nat) (st : LState) (h : (cfgLine rec (.imp c) st).ok = false) :
+    (cfgLine rec (.imp c) st).st.comps = st.comps :=
+  cfgLine_imp_failed rec c st h
+
+/-- the former counterexample (`C19_state_restored_fails_with_import` against the code before the repair) is gone: the failed
+    load leaves the loader as it was, and the later load on the same loader equals the load on a fresh one -/
+example : (run [.step 7 1] importScenario {}).ok = false ∧ (run [.step 7 1] importScenario {}).st = {} ∧
+    run [] importScenario (run [.step 7 1] importScenario {}).st = run [] importScenario {} ∧
+    Res2.Ev.ropen 7 ∈ (run [] importScenario {}).evs := by
+  decide
+
+/-- Every mark a call leaves — it returned or raised, any entry, any fault set — was there before the call or belongs to a
+    component that was read to the end: some `with openResource(component)` block on it returned under this fault oracle.
+    (Before the repair a mark could belong to a component that was never, or only partly, read.) -/
+theorem C19_marks_justified (faults : List Pt) (sc : Scenario) (st : LState) :
+    ∀ c ∈ (run faults sc st).st.comps,
+      c ∈ st.comps ∨ ∃ n st0, (runRes (fun p => faults.contains p) sc.docs n .comp c st0).ok = true :=
+  run_marks_justified faults sc st
+
+/-- "A failed load leaves `_active_urls` and the component marks as they were", PARTIAL.  Proved for every entry and fault set:
+    after a failed call `_active_urls` is as before; the marks are as before for schema loads, and for configuration loads they
+    are the old ones followed by marks of components read to the end.
+    MISSING for the full statement `ok = false → comps = st.comps`: it is FALSE for configuration loads in which an earlier
+    `%import` line (or a `%import` in an included resource that was completed) returned before the failure: `saved` undoes the
+    failing import only — see `C19_failed_load_restores_fails_after_successful_import`. -/
+theorem C19_failed_load_restores_partial (faults : List Pt) (sc : Scenario) (st : LState) (_h : (run faults sc st).ok = false) :
+    (run faults sc st).st.active = st.active ∧
+    ((sc.entry.mode = .load false ∨ sc.entry.mode = .load true) → (run faults sc st).st.comps = st.comps) ∧
+    st.comps <+: (run faults sc st).st.comps ∧
+    ∀ c ∈ (run faults sc st).st.comps,
+      c ∈ st.comps ∨ ∃ n st0, (runRes (fun p => faults.contains p) sc.docs n .comp c st0).ok = true := by
+  refine ⟨(runRes_keeps _ sc.docs sc.limit _ _ st).active, ?_, (runRes_keeps _ sc.docs sc.limit _ _ st).comps,
+    run_marks_justified faults sc st⟩
+  intro hm
+  unfold run
+  rcases hm with hm | hm <;> rw [hm] <;> exact runRes_load_comps _ sc.docs sc.limit _ _ st
+
+/-- configuration 0 = `%import` of component 7 (fine), then `%import` of component 8, which imports component 9 and
+    `<import src=5>` and then has a malformed element -/
+def twoImports : Scenario :=
+  { docs := [(0, .cfg [.imp 7, .imp 8]), (7, .comp [.work]), (8, .comp [.importPkg 9, .importSrc 5, .work]), (9, .comp []),
+             (5, .schema [] [])], entry := .cfgURL 0 }
+
+/-- COUNTEREXAMPLE to `ok = false → comps = st.comps`, and what remains of "a failed load leaves nothing behind" after the repair:
+    the load fails in the second `%import`; the marks of 8 and of the nested 9 are taken back, the mark of 7 — imported by an
+    earlier line of the same failed load — stays in the loader (so do its section types), and schema 5 stays in the private
+    loader's cache.  A later load on the same loader therefore does not open component 7 again.
+    (Same on the real code: after `%import good` / `%import bad` fails, `ld.schema` has type `good` and its mark, and a later
+    load on that loader accepts `<good>` sections without any `%import`.  This is the state a successful load leaves as well.) -/
+theorem C19_failed_load_restores_fails_after_successful_import :
+    let failed := run [.step 8 2] twoImports {}
+    failed.ok = false ∧ failed.st.active = [] ∧ failed.st.comps = [7] ∧ failed.st.cache = [5] ∧
+    Res2.Ev.ropen 9 ∈ failed.evs ∧
+    (run [] twoImports failed.st).ok = true ∧ Res2.Ev.ropen 7 ∉ (run [] twoImports failed.st).evs ∧
+    (run [] twoImports failed.st).st.comps = [7, 8, 9] := by
+  decide
+
+/-- What a configuration load that RETURNS has added: every component named by a `%import` line of the top resource is marked
+    (and by `C19_marks_justified` nothing is marked that was not read to the end; by `C19_state_only_grows` the old marks and
+    cache entries are kept, in order). -/
+theorem C19_ok_config_load_marks_imports (faults : List Pt) (sc : Scenario) (st : LState) (h : (run faults sc st).ok = true)
+    (hentry : sc.entry.mode = .top false ∨ sc.entry.mode = .top true)
+    (lines : List CStep) (hdoc : lookup sc.docs sc.entry.res = some (.cfg lines)) (c : Nat) (hc : CStep.imp c ∈ lines) :
+    c ∈ (run faults sc st).st.comps := by
+  unfold run at h ⊢
+  rcases hentry with hm | hm <;> rw [hm] at h ⊢ <;> exact runRes_top_marks _ sc.docs sc.limit _ _ st lines hdoc c hc h
+
+/-- What a schema load that RETURNS has added: the schema is in the loader's cache (its component list is untouched:
+    `C19_schema_load_keeps_comps`). -/
+theorem C19_ok_schema_load_cached (faults : List Pt) (sc : Scenario) (st : LState) (h : (run faults sc st).ok = true)
+    (hentry : sc.entry.mode = .load false ∨ sc.entry.mode = .load true) :
+    sc.entry.res ∈ (run faults sc st).st.cache := by
+  unfold run at h ⊢
+  rcases hentry with hm | hm <;> rw [hm] at h ⊢ <;> exact runRes_load_cached _ sc.docs sc.limit _ _ st h
+
+/-- "The verdict does not depend on the schema cache", PARTIAL: without faults, for a scenario in which nothing can go wrong
+    (`Sound`: every reference exists, is of the right kind, no cycles, enough stack) the load returns whatever the cache holds.
+    MISSING for the full statement (`ok` independent of `st.cache` for all faults and scenarios): it is FALSE —
+    `C19_cache_relevant_with_faults`, `C19_cache_relevant_without_faults`.  A true general statement needs a cache that is
+    consistent with the documents and the oracle (every entry would load again) and stack for the parse the cache saves;
+    that replay argument is not proved here. -/
+theorem C19_cache_irrelevant_to_outcome_partial (sc : Scenario) (rank : Nat → Nat) (hs : Sound sc rank) (st : LState)
+    (hact : st.active = []) (cache1 cache2 : List Nat) :
+    (run [] sc { st with cache := cache1 }).ok = (run [] sc { st with cache := cache2 }).ok := by
+  exact (run_ok sc rank hs { st with cache := cache1 } hact).trans (run_ok sc rank hs { st with cache := cache2 } hact).symm
+
+/-- schema 0 = `<import src=5>`, schema 5 = one element -/
+def importSrcScenario : Scenario := { docs := [(0, .schema [] [.importSrc 5]), (5, .schema [] [.work])], entry := .schemaURL 0 }
+
+/-- COUNTEREXAMPLE 1: the first element of schema 5 fails under the oracle.  With 5 in the cache (loaded by an earlier call
+    under another oracle: the document was changed since, or the failure is transient) it is opened but not parsed and the
+    load returns; with an empty cache the load fails.  Same events in both cases. -/
+theorem C19_cache_relevant_with_faults :
+    (run [.step 5 0] importSrcScenario {}).ok = false ∧ (run [.step 5 0] importSrcScenario { cache := [5] }).ok = true ∧
+    ioTrace (run [.step 5 0] importSrcScenario {}).evs = ioTrace (run [.step 5 0] importSrcScenario { cache := [5] }).evs := by
+  decide
+
+/-- COUNTEREXAMPLE 2, no faults: resource 5 is not a schema (or: has a missing base, or imports itself); a cache that claims
+    to hold it — which no load of these documents could have produced — turns failure into success. -/
+theorem C19_cache_relevant_without_faults :
+    let sc : Scenario := { docs := [(0, .schema [] [.importSrc 5]), (5, .cfg [])], entry := .schemaURL 0 }
+    (run [] sc {}).ok = false ∧ (run [] sc { cache := [5] }).ok = true := by
+  decide
+
+/-- Without faults the load completes, PROVIDED nothing else can go wrong: the entry resource exists and is of the kind the
+    call expects; every reference (`%include`, `%import`, `extends`, `<import>`) goes to an existing resource of the right kind
+    and of smaller `rank` (no cycles: ZConfig refuses include cycles and overflows the stack on schema cycles); the nesting
+    stays below the recursion limit; no load is in progress in the loader.  (Non-vacuity of the fault-free case.) -/
+theorem C19_no_fault_ok2 (sc : Scenario) (rank : Nat → Nat) (hs : Sound sc rank) (st : LState) (hact : st.active = []) :
+    (run [] sc st).ok = true :=
+  run_ok sc rank hs st hact
+
+/-- the hypotheses of `C19_no_fault_ok2` hold for: a schema with two bases (one of them with a base of its own, shared),
+    a component imported by two members, an `<import src>` -/
+example : Sound { docs := [(0, .schema [1, 2] [.importPkg 7, .work, .importSrc 5]), (1, .schema [3] [.work]), (2, .schema [3] [.importPkg 7]),
+                           (3, .schema [] []), (5, .schema [] [.importPkg 7]), (7, .comp [.work])],
+                  entry := .schemaURL 0 } (fun r => 7 - r) :=
+  sound_of_soundB (by decide)
+/-- … and for a configuration with includes (a diamond) and an `%import` -/
+example : Sound { docs := [(0, .cfg [.incl 1, .imp 7, .incl 2]), (1, .cfg [.incl 3]), (2, .cfg [.incl 3, .imp 7]), (3, .cfg [.work]),
+                           (7, .comp [.work])],
+                  entry := .cfgFile 0 } (fun r => 7 - r) :=
+  sound_of_soundB (by decide)
+
+/-!
+### Examples (for the driver op; `brief` = ok?, (active, comps, cache) afterwards, recorded events so/sc = stream open/close, ro/rc = Resource open/close)
+
+    def brief (o : Out) : Bool × (List Nat × List Nat × List Nat) × List String :=
+      (o.ok, (o.st.active, o.st.comps, o.st.cache), (ioTrace o.evs).map fun
+        | .sopen r => s!"so{r}" | .sclose r => s!"sc{r}" | .ropen r => s!"ro{r}" | .rclose r => s!"rc{r}")
+    def cyc : Scenario := { docs := [(0, .cfg [.work, .incl 1, .work]), (1, .cfg [.work, .incl 0])], entry := .cfgURL 0 }
+    def twoBases : Scenario := { docs := [(0, .schema [1, 2] [.work]), (1, .schema [] [.work]), (2, .schema [] [.work])], entry := .schemaURL 0 }
+    def compTwice : Scenario := { docs := [(0, .schema [] [.importPkg 7, .work, .importPkg 7]), (7, .comp [.work])], entry := .schemaURL 0 }
+    def srcTwice : Scenario := { docs := [(0, .schema [] [.importSrc 5, .importSrc 5]), (5, .schema [] [.work])], entry := .schemaURL 0 }
+    def cfgImport : Scenario := { docs := [(0, .cfg [.imp 7, .work]), (7, .comp [.work, .importSrc 5]), (5, .schema [] [.work])], entry := .cfgURL 0 }
+    def selfExt : Scenario := { docs := [(0, .schema [0] [])], entry := .schemaURL 0, limit := 3 }
+    def diamond : Scenario := { docs := [(0, .cfg [.incl 1, .incl 2]), (1, .cfg [.incl 3]), (2, .cfg [.incl 3]), (3, .cfg [.work])], entry := .cfgFile 0 }
+
+    -- 1. include cycle 0 → 1 → 0: the inner 0 is opened, refused, closed
+    #eval brief (run [] cyc {})                 -- (false, ([], [], []), [so0, sc0, ro0, so1, sc1, ro1, so0, sc0, ro0, rc0, rc1, rc0])
+    -- 2. extends="1 2": base 2 is read first, then base 1
+    #eval brief (run [] twoBases {})            -- (true, ([], [], [0]), [so0, sc0, ro0, so2, sc2, ro2, rc2, so1, sc1, ro1, rc1, rc0])
+    -- 3. the second base in the document (read first) cannot be opened
+    #eval brief (run [.urlopen 2] twoBases {})  -- (false, ([], [], []), [so0, sc0, ro0, rc0])
+    -- 4. the second base to be read (first in the document) cannot be opened: base 2 was read and closed before
+    #eval brief (run [.urlopen 1] twoBases {})  -- (false, ([], [], []), [so0, sc0, ro0, so2, sc2, ro2, rc2, rc0])
+    -- 5. component imported twice by one schema: opened once (package resources have no URL stream)
+    #eval brief (run [] compTwice {})           -- (true, ([], [], [0]), [so0, sc0, ro0, ro7, rc7, rc0])
+    -- 6. <import src=5> twice: opened twice, parsed once (second time served from `_cache`)
+    #eval brief (run [] srcTwice {})            -- (true, ([], [], [5, 0]), [so0, sc0, ro0, so5, sc5, ro5, rc5, so5, sc5, ro5, rc5, rc0])
+    -- 7. %import whose component fails at its 2nd element: the mark is taken back (repaired code) …
+    #eval brief (run [.step 7 1] cfgImport {})  -- (false, ([], [], []), [so0, sc0, ro0, ro7, rc7, rc0])
+    -- 8. … the same loader imports it in the next load exactly as 9. a fresh loader does
+    #eval brief (run [] cfgImport (run [.step 7 1] cfgImport {}).st)   -- (true, ([], [7], [5]), [so0, sc0, ro0, ro7, so5, sc5, ro5, rc5, rc7, rc0])
+    #eval brief (run [] cfgImport {})           -- (true, ([], [7], [5]), [so0, sc0, ro0, ro7, so5, sc5, ro5, rc5, rc7, rc0])
+    -- 9a. the component fails at its end, after its <import src=5> returned: mark taken back, schema 5 stays cached
+    #eval brief (run [.step 7 2] cfgImport {})  -- (false, ([], [], [5]), [so0, sc0, ro0, ro7, so5, sc5, ro5, rc5, rc7, rc0])
+    -- 9b. (twoImports, see above) first %import fine, second fails after a nested <import package=9> and <import src=5>:
+    --     marks of 8 and 9 taken back, mark of 7 stays, 5 stays cached; 9c. the next load on that loader skips 7
+    #eval brief (run [.step 8 2] twoImports {}) -- (false, ([], [7], [5]), [so0, sc0, ro0, ro7, rc7, ro8, ro9, rc9, so5, sc5, ro5, rc5, rc8, rc0])
+    #eval brief (run [] twoImports (run [.step 8 2] twoImports {}).st)  -- (true, ([], [7, 8, 9], [5]), [so0, sc0, ro0, ro8, ro9, rc9, so5, sc5, ro5, rc5, rc8, rc0])
+    -- 10. a schema that extends itself, recursion limit 3: RecursionError, everything closed
+    #eval brief (run [] selfExt {})             -- (false, ([], [], []), [so0, sc0, ro0, so0, sc0, ro0, so0, sc0, ro0, rc0, rc0, rc0])
+    -- 11. loadFile (no stream for 0), diamond 0 → 1 → 3, 0 → 2 → 3; read() of 3 fails
+    #eval brief (run [.read 3] diamond {})      -- (false, ([], [], []), [ro0, so1, sc1, ro1, so3, sc3, rc1, rc0])
+    -- 12. a resource that does not exist
+    #eval brief (run [] { cyc with entry := .cfgURL 9 } {})            -- (false, ([], [], []), [])
+    -- with parse steps:
+    #eval (run [.step 1 0] cyc {}).evs  -- [sopen 0, sclose 0, ropen 0, parse 0 0, parse 0 1, sopen 1, sclose 1, ropen 1, parse 1 0, rclose 1, rclose 0]
+
+Some of them, checked: -/
+
+example : ioTrace (run [] { docs := [(0, .cfg [.work, .incl 1, .work]), (1, .cfg [.work, .incl 0])], entry := .cfgURL 0 } {}).evs =
+    [.sopen 0, .sclose 0, .ropen 0, .sopen 1, .sclose 1, .ropen 1, .sopen 0, .sclose 0, .ropen 0, .rclose 0, .rclose 1, .rclose 0] := by
+  decide
+example : ioTrace (run [.urlopen 1] { docs := [(0, .schema [1, 2] [.work]), (1, .schema [] [.work]), (2, .schema [] [.work])],
+                                      entry := .schemaURL 0 } {}).evs =
+    [.sopen 0, .sclose 0, .ropen 0, .sopen 2, .sclose 2, .ropen 2, .rclose 2, .rclose 0] := by
+  decide
+example : ioTrace (run [] { docs := [(0, .schema [] [.importPkg 7, .work, .importPkg 7]), (7, .comp [.work])], entry := .schemaURL 0 } {}).evs =
+    [.sopen 0, .sclose 0, .ropen 0, .ropen 7, .rclose 7, .rclose 0] := by
+  decide
+example : (run [] { docs := [(0, .schema [0] [])], entry := .schemaURL 0, limit := 3 } {}).ok = false := by decide
+
+end second
 
 end ZCV.Props.C19
